@@ -409,6 +409,21 @@ def c04_4(ctx, R="C04.4", eps_only=None):
                         ok_r = True
         ctx.ob(R, "entry:%s:reported-cost" % ep, ok_r, "%s reports cost = max_cost - cost_left (so cost <= max_cost by construction)" % ep,
                found=[show(x)[:200] for x in rep])
+    # a budget exhausted *inside* CLVM surfaces as the same CostExceeded as one exhausted by a size or condition charge
+    fe = fb.fns.get("<chia_consensus::validation_error::ValidationErr as core::convert::From<clvmr::error::EvalErr>>::from")
+    if fe is None:
+        ctx.missing(R, "evalerr-cost-exceeded", "impl From<EvalErr> for ValidationErr not found")
+    else:
+        eb_ = Body(fe, fb)
+        rows = set()
+        for ev, ex in P.enumerate_paths(eb_):
+            cs = tuple((str(apnf.N(t)), l[0], len(l[1])) for t, l in P.conds(ev))
+            rows.add((ex[0], str(apnf.N(P.ret_of(ev))) if ex[0] == "return" else "", cs))
+        exp = {("return", "('ValidationErr::Err', ('ErrorCode::CostExceeded',))", (("e", "in", 1),)),
+               ("return", "('ValidationErr::Eval', 'e')", (("e", "notin", 1),))}
+        ctx.ob(R, "evalerr-cost-exceeded", rows == exp,
+               "From<EvalErr>: exactly one EvalErr variant (the interpreter's cost-exceeded) becomes ErrorCode::CostExceeded, every other error stays Eval(e)",
+               found=sorted(map(str, rows))[:3], where=fe.sp)
     b = U.body(ctx, R, CC + "generator_cost::interned_vbytes")
     if b:
         r = None
